@@ -1,101 +1,58 @@
 /-
-C18 - every operator honours the stream contract its consumers rely on (partial: the leaves,
-the exchange operators and pointwise operators; the remaining operators are checked on the
-real code by the verif-tag wrapper at every Series/Next).
+C18 - every operator honours the stream contract its consumers rely on. The ID half of the
+contract is proven for every operator of every plan over the natively supported constructs
+(`plan_contract`, by induction over the typing derivation); the batching half for the leaf cursor;
+the remaining clauses (end of stream stays ended, no concurrent Next) are checked on the real
+code by the verif-tag wrapper at every Series/Next.
 -/
-import PromqlVerif.Proofs.Den
+import PromqlVerif.Proofs.PlanContract
 import PromqlVerif.Proofs.Grid
 namespace PromqlVerif.C18
 open PromqlVerif Val
 
 variable {V : Type} [Val V]
 
-/-- sample IDs index the series list and are pairwise distinct -/
-def IdsOk {β : Type} (n : Nat) (xs : List (Nat × β)) : Prop :=
-  (∀ x ∈ xs, x.1 < n) ∧ (xs.map (·.1)).Pairwise (· ≠ ·)
+/-- **every operator of every plan**: for every well-typed expression over the natively supported
+constructs (selectors, range and instant functions, aggregations with parameters, topk/bottomk,
+scalar and vector binary operators with any matching, histogram_quantile, timestamp, clamp,
+scalar()/vector(), unary operators, @-pinned parts), every storage, window and lookback: the
+operator built for it emits at every step sample IDs that index its series list and are pairwise
+distinct, and a scalar-typed operator has exactly one series. Every sub-expression is itself such
+an expression, so this is a statement about every operator instance in the plan. -/
+theorem every_operator_honours_id_contract (c : Ctx V) (b : Bool) (e : Expr V) (h : WT b e) (o : OpSem V)
+    (ho : engOp c e = .ok o) :
+    (∀ t xs, o.step t = .ok xs → (∀ x ∈ xs, x.1 < o.series.length) ∧ (xs.map (·.1)).Pairwise (· ≠ ·)) ∧
+      (b = true → o.series.length = 1) := plan_contract c b e h o ho
 
-theorem enumFrom_ids {γ β : Type} (k : Nat) (ms : List γ) (g : γ → Option β) :
-    (∀ x ∈ (enumFrom k ms).filterMap (fun (p : Nat × γ) => (g p.2).map fun b => (p.1, b)), k ≤ x.1 ∧ x.1 < k + ms.length) ∧
-      (((enumFrom k ms).filterMap (fun (p : Nat × γ) => (g p.2).map fun b => (p.1, b))).map (·.1)).Pairwise (· < ·) := by
-  induction ms generalizing k with
-  | nil => simp [enumFrom]
-  | cons m ms ih =>
-    obtain ⟨h1, h2⟩ := ih (k + 1)
-    simp only [enumFrom, List.filterMap_cons]
-    cases hg : g m with
-    | none =>
-      simp only [Option.map_none]
-      refine ⟨fun x hx => ?_, h2⟩
-      have := h1 x hx
-      simp only [List.length_cons]; omega
-    | some b =>
-      simp only [Option.map_some, List.map_cons]
-      constructor
-      · intro x hx
-        rcases List.mem_cons.mp hx with rfl | hx
-        · simp
-        · have := h1 x hx
-          simp only [List.length_cons]; omega
-      · apply List.Pairwise.cons
-        · intro y hy
-          obtain ⟨x, hx, rfl⟩ := List.mem_map.mp hy
-          have := h1 x hx
-          omega
-        · exact h2
+/-- the premises are satisfiable by a plan that goes through the join, a grouped aggregation, a
+k-aggregation with a per-step parameter and a pinned selector -/
+example : WT (V := Int) false
+    (.bin "/" false ⟨.manyToOne, true, ["a"], ["b"]⟩
+      (.agg "sum" false ["a"] (.call "rate" [.msel ⟨[], 0, none, none⟩ 300000]))
+      (.aggP "topk" true ["c"] (.call "scalar" [.vsel ⟨[], 0, none, none⟩])
+        (.stepInv (.vsel ⟨[], 60000, some 1000, none⟩)))) :=
+  WT.bin "/" false _ false false _ _
+    (WT.agg "sum" false ["a"] _ (WT.rangefn "rate" _ _ (by decide)))
+    (WT.aggP "topk" true ["c"] _ _ (WT.scalar _ (WT.vsel _))
+      (WT.stepInv false _ (by intro v h; cases h) (WT.vsel _)))
 
-/-- **the selector leaves honour the contract**: at every step, IDs index `Series()` and no ID
-repeats; no staleness marker is emitted (the value type of a step vector has none) -/
-theorem selector_contract (c : Ctx V) (s : VSel) (ts : Bool) (t : Int) (xs : IdVec V)
-    (h : (engSelector c s ts).step t = .ok xs) : IdsOk (engSelector c s ts).series.length xs := by
-  simp only [engSelector] at h ⊢
-  cases h
-  have := enumFrom_ids 0 (matchingSeries c s)
-    (fun sr => (selectSample c.lookback (t - s.offsetAt c.start) sr.samples).map fun p =>
-      if ts then div (ofInt p.1) (ofInt 1000) else p.2)
-  simp only [enum, List.length_map, Option.map_map, Function.comp_def] at this ⊢
-  refine ⟨fun x hx => ?_, ?_⟩
-  · have := this.1 x hx; omega
-  · exact this.2.imp (fun h => Nat.ne_of_lt h)
+/-- topk / bottomk return input samples: a group's selection plus what it dropped is a
+rearrangement of the group's samples (nothing invented, nothing emitted twice) - for the
+engine's bounded heap, every k and every arrival order -/
+theorem topk_keeps_input_samples {α : Type} (top : Bool) (k : Nat) (items : List (α × V)) :
+    ∃ dropped, (kSelect top k items ++ dropped).Perm items := kSelect_perm top k items
 
-theorem rangefn_contract (c : Ctx V) (fn : String) (s : VSel) (r : Int) (t : Int) (xs : IdVec V)
-    (h : (engRangeFn c fn s r).step t = .ok xs) : IdsOk (engRangeFn c fn s r).series.length xs := by
-  simp only [engRangeFn] at h ⊢
-  cases h
-  have := enumFrom_ids 0 (matchingSeries c s)
-    (fun sr => rangeKernel fn (windowPoints (t - s.offsetAt c.start - r) (t - s.offsetAt c.start) sr.samples)
-      (t - s.offsetAt c.start - r) (t - s.offsetAt c.start) (rangeSeconds r : V))
-  simp only [enum, List.length_map] at this ⊢
-  refine ⟨fun x hx => ?_, ?_⟩
-  · have := this.1 x hx; omega
-  · exact this.2.imp (fun h => Nat.ne_of_lt h)
+/-- the static join tables only ever point at outputs that exist, and two series of the "many"
+side never share an output series -/
+theorem join_tables_index_outputs (m : Matching) (keepName : Bool) (high low : List Labels) :
+    JOk (engJoin m keepName high low) := engJoin_ok m keepName high low
 
-/-- pointwise operators keep IDs and the length of the series list -/
-theorem pointwise_contract {β β' : Type} (n : Nat) (xs : List (Nat × β)) (g : β → β') (h : IdsOk n xs) :
-    IdsOk n (xs.map fun x => (x.1, g x.2)) := by
-  obtain ⟨h1, h2⟩ := h
-  refine ⟨fun x hx => ?_, ?_⟩
-  · obtain ⟨y, hy, rfl⟩ := List.mem_map.mp hx; exact h1 y hy
-  · simpa [List.map_map, Function.comp_def] using h2
+/-- the selector leaves -/
+theorem selector_contract (c : Ctx V) (s : VSel) (ts : Bool) : Contract (engSelector c s ts) :=
+  contract_selector c s ts
 
-theorem filterMap_ids_sublist {β β' : Type} (xs : List (Nat × β)) (g : β → Option β') :
-    ((xs.filterMap fun x => (g x.2).map fun b => (x.1, b)).map (·.1)).Sublist (xs.map (·.1)) := by
-  induction xs with
-  | nil => simp
-  | cons x xs ih =>
-    simp only [List.filterMap_cons, List.map_cons]
-    cases g x.2 with
-    | none => exact ih.cons _
-    | some b => simp only [Option.map_some, List.map_cons]; exact ih.cons₂ _
-
-/-- filtering operators (comparisons, clamp with inverted bounds) keep the contract -/
-theorem filter_contract {β β' : Type} (n : Nat) (xs : List (Nat × β)) (g : β → Option β') (h : IdsOk n xs) :
-    IdsOk n (xs.filterMap fun x => (g x.2).map fun b => (x.1, b)) := by
-  obtain ⟨h1, h2⟩ := h
-  refine ⟨fun x hx => ?_, h2.sublist (filterMap_ids_sublist xs g)⟩
-  obtain ⟨y, hy, hxy⟩ := List.mem_filterMap.mp hx
-  cases hg : g y.2 with
-  | none => simp [hg] at hxy
-  | some b => simp only [hg, Option.map_some, Option.some.injEq] at hxy; subst hxy; exact h1 y hy
+theorem rangefn_contract (c : Ctx V) (fn : String) (s : VSel) (r : Int) : Contract (engRangeFn c fn s r) :=
+  contract_rangefn c fn s r
 
 /-- re-basing by the shard offset keeps IDs inside the concatenated series list -/
 theorem rebase_in_range {β : Type} (pre n : Nat) (xs : List (Nat × β)) (h : ∀ x ∈ xs, x.1 < n) :
